@@ -32,9 +32,9 @@ ASSUMPTIONS = [
     "a handle that created the file is a writer; reopened without a mode it appends (it must not create the file again)",
     "a key longer than 255 bytes put into a buffered collection is only found out by the flush: until an error has been "
     "raised the collection may or may not list it; afterwards it must not",
-    "whether records still buffered when a session BODY raises reach the file at that exit is C04's subject: after such a "
-    "session the file must hold every earlier record and nothing that was not put; if buffered records are missing the "
-    "history ends without a verdict",
+    "a put that returned without an error is a successful put, also when the body of its writing session raises later: "
+    "after that session the file holds every earlier record, every accepted record of the session and nothing else "
+    "(oversize keys, which a buffered collection only finds out at the flush, are not put in such sessions)",
     "a put inside reading() of a writable collection, str keys/values without an encoder and pickling an OPEN handle are "
     "outside the property's wording and are not driven",
 ]
@@ -44,7 +44,7 @@ REQUIRED = {"ukv.op": 2000, "ukv.failing-op": 200, "ukv.rawscan": 200, "ukv.reop
             # added after the gap review
             "exh.creator-sequences": 2000, "ukv.creator-kept.w": 1000, "ukv.creator-kept.x": 1000,
             "ukv.creator-read-before-first-close": 800, "ukv.creator-put-before-first-close": 700,
-            "ukv.creator-reopen-without-mode": 600, "ukv.bulk-read": 1000, "ukv.copy-items": 100, "ukv.item-syntax": 2500,
+            "ukv.creator-reopen-without-mode": 600, "ukv.bulk-read": 1000, "ukv.copy-items": 100, "ukv.file-recreated-under-closed-handles": 100, "ukv.item-syntax": 2500,
             "ukv.failing-op.create-x-on-existing-file": 300,
             "coll.bulk-read.with-queued-records": 150, "coll.h1-passed": 180, "coll.start.old-file-replaced": 90,
             "coll.start.old-file-kept": 40, "coll.write-on-readonly": 190, "coll.write-on-readonly.in-reading-session": 100,
@@ -203,6 +203,8 @@ class UkvDriver:
             return h in self.objs and self.model.handle(h).open
         if kind == "create-x":
             return True
+        if kind == "recreate":
+            return not any(x.open for x in self.model.handles.values())
         return h in self.objs  # put/get/keys need a constructed handle
 
     def step(self, op):
@@ -345,6 +347,21 @@ class UkvDriver:
             else:
                 o.close()
                 self.v("ukv:create-x-on-existing-file:accepted")
+        elif kind == "recreate":
+            # while every handle is closed the file is created anew (mode "w") by another handle, with another comment /
+            # descriptor block and other records: from now on the map is the new file's; handles reopened later follow it
+            _, _, h2, b0, recs = op
+            ctx.count("ukv.file-recreated-under-closed-handles")
+            self.flags.add("recreated")
+            try:
+                o = self.UKVFile(self.path, mode="w", h1=self.h1, h2=h2, b0=b0)
+                for k, v in recs:
+                    o.put(k, v)
+                o.close()
+            except Exception as e:  # noqa
+                return self.v(f"ukv:recreate:raises:{type(e).__name__}", err=repr(e)[:200])
+            m.committed = dict(recs)
+            m.h2, m.b0 = h2, b0
         self.check_views(kind)
 
     def check_views(self, after):
@@ -583,6 +600,9 @@ def run_random(spec, ctx):
                 op = ("pickle", h)
             elif r < 0.34:
                 op = ("create-x", h)
+            elif r < 0.36:
+                op = ("recreate", h, rng.choice([b"", b"new", b"n" * 301, b"comment \xc3\xa9"]), rng.choice([b"", b"\x90", bytes(range(200))]),
+                      [(f"n{step_no}-{i}".encode(), rng.randbytes(rng.choice([0, 3, 40]))) for i in range(rng.randrange(0, 3))])
             elif r < 0.62:
                 k = rng.choice(keypool)
                 if rng.random() < 0.5 and hd.open and hd.mode == "a":
@@ -898,16 +918,18 @@ def run_coll(spec, ctx):
                 break
             got = {k.decode(): val for k, val, _ in recs}
             if body_raised[0] is not None and pending:
-                # whether the records still buffered when the body raised are stored at that exit is C04's subject: here
-                # the file only has to hold every earlier record and nothing that was not put
+                # the file holds every earlier record and nothing that was not put ...
                 if len(recs) != len(got) or any(got.get(k) != val for k, val in committed.items()) \
                         or any(k not in committed and pending.get(k) != val for k, val in got.items()):
                     v("coll:rawscan:records-differ-from-model:after-session-left-by-exception",
                       n_got=len(recs), n_committed=len(committed), n_buffered=len(pending))
                     break
                 if any(k not in got for k in pending):
-                    ctx.count("coll.session-body-raised.buffered-records-not-stored-at-exit")
-                    break       # their fate is not judged here; the history ends
+                    # every put of this session that was accepted is a successful put: once the session has ended (however
+                    # it ended) the record belongs to the map every handle sees
+                    v("coll:session-left-by-exception:accepted-records-not-in-the-file-after-the-session",
+                      missing=sorted(k for k in pending if k not in got)[:4], left_by=body_raised[0])
+                    break
                 committed.update(pending)
             else:
                 committed.update(pending)
